@@ -19,6 +19,7 @@ from typing import Any, Callable
 
 TIER = os.environ.get("VERIF_TIER", "quick")
 TWIN = os.environ.get("VF_TWIN") == "1"
+CONCRETE = os.environ.get("VF_REPLAY") == "1"     # concrete replay: harnesses may use real str/bytes instead of abstractions
 HERE = os.path.dirname(os.path.dirname(os.path.abspath(__file__)))
 
 
